@@ -157,6 +157,7 @@ func verifSpecHandledSelect(current Identifier, qualified bool, qualifier Identi
 //@   requires l != nil && inv(l)
 //@   requires tok-current: tokcur(l, t)
 //@   ensures err == nil ==> tokcur(l, next)
+//@   ensures well-formed: err == nil ==> selOK(selector) [C10]
 //@   ensures inv(l) && l.data == old(l.data) && l.pe == old(l.pe)
 //@   ensures err == nil ==> l.p >= old(l.p)
 //@   modifies l.p, l.id, l.m, l.mid, l.$ts, l.$mts
@@ -170,6 +171,7 @@ func verifSpecHandledSelect(current Identifier, qualified bool, qualifier Identi
 //@ loop parser.isHandledSelectStmt #1
 //@   invariant inv(l) && l.data == old(l.data) && l.pe == old(l.pe) && selectStmt != nil && fresh(selectStmt) && tokcur(l, t)
 //@   invariant selectStmt.Selectors == nil || fresh(selectStmt.Selectors)
+//@   invariant forall(k, 0, len(selectStmt.Selectors), selOK(selectStmt.Selectors[k])) [C10]
 
 // isHandledSelectStmt: the decision equals the property's sentence, evaluated on the qualifier and
 // table name that the statement names after FROM ($sel* record what parseQualifiedIdentifier returned).
@@ -183,6 +185,7 @@ func verifSpecHandledSelect(current Identifier, qualified bool, qualifier Identi
 //@   known decision: $selDot && $selQual.id == "" && !$selQual.ignoreCase
 //@   ensures no-target: !$selReached || $selErr ==> !handled
 //@   ensures statement: handled && err == nil ==> typeis(stmt, *SelectStatement) && as(stmt, *SelectStatement).Keyspace == "system" && as(stmt, *SelectStatement).Table == $selTable.id
+//@   ensures well-formed: handled && err == nil ==> stmtOK(as(stmt, *SelectStatement)) [C10]
 //@   modifies l.p, l.id, l.m, l.mid, l.$ts, l.$mts, $selReached, $selDot, $selErr, $selQual, $selTable
 
 //@ func parser.isHandledUseStmt [C09]
@@ -200,24 +203,79 @@ func verifSpecHandledSelect(current Identifier, qualified bool, qualifier Identi
 //@   known select: $selDot && $selQual.id == "" && !$selQual.ignoreCase
 //@   ensures select-no-target: ufInt("lex.tok", query, 0) == tkSelect && (!$selReached || $selErr) ==> !handled
 //@   ensures not-handled-select: ufInt("lex.tok", query, 0) == tkSelect && !handled ==> typeis(stmt, *SelectStatement)
+//@   ensures well-formed: handled && err == nil && typeis(stmt, *SelectStatement) ==> stmtOK(as(stmt, *SelectStatement)) [C10]
 //@   modifies nothing, $selReached, $selDot, $selErr, $selQual, $selTable
 
 // ---------------------------------------------------------------------------------------------
-// Selector evaluation as seen by the proxy's handlers (details: C10)
+// C10: selector evaluation. "exactly the requested columns (projection order, aliases, *)":
+//   every selector contributes as many values as it contributes columns - all columns of the table
+//   for '*', one otherwise - so a row built by FilterValues lines up with the metadata built by
+//   FilterColumns when both are given the same table columns.
+//   selOK: the selectors the parser builds (an alias wraps a plain column name).
+//   wsum(tags, off, n, k): total width of the first k selectors of a list over a table of n columns.
 // ---------------------------------------------------------------------------------------------
 
-//@ iface parser.Selector.Columns
+//@ macro selOK(s) = valof(s) != 0 && (typeis(s, *parser.IDSelector) || typeis(s, *parser.StarSelector) || typeis(s, *parser.CountFuncSelector) || typeis(s, *parser.NowFuncSelector) || (typeis(s, *parser.AliasSelector) && typeis(as(s, *parser.AliasSelector).Selector, *parser.IDSelector) && valof(as(s, *parser.AliasSelector).Selector) != 0))
+//@ macro selw(s, n) = ite(typeis(s, *parser.StarSelector), n, 1)
+//@ opaque stmtOK(s) = s != nil && forall(k, 0, len(s.Selectors), selOK(s.Selectors[k]))
+//@ specfn wsum(tags, off, n, k) = ite(k <= 0, 0, wsum(tags, off, n, k - 1) + ite(tags[off + k - 1] == typetag(*parser.StarSelector), n, 1))
+
+// Parsed statements are values: nothing is written to a statement or a selector after the parser
+// built it (checked at every store; this is what lets the facts above survive calls).
+//@ type parser.SelectStatement
+//@   immutable: Keyspace, Table, Selectors
+//@ type parser.AliasSelector
+//@   immutable: Selector, Alias
+//@ type parser.IDSelector
+//@   immutable: Name
+//@ type parser.CountFuncSelector
+//@   immutable: Arg
+//@ immutable-elems []parser.Selector [C10, C18]
+
+// The lookup function handed to FilterValues: it answers a column name with that column's value and
+// has no side effects (the two closures the proxy passes are checked against this).
+//@ iface parser.ValueLookupFunc [C10]
+//@   implementers proxy.client.filterSystemLocalValues$1, proxy.client.filterSystemPeerValues$1
 //@   modifies nothing
 
-//@ iface parser.Selector.Values
+//@ iface parser.Selector.Columns [C10]
+//@   implementers *parser.IDSelector, *parser.StarSelector, *parser.CountFuncSelector, *parser.NowFuncSelector, *parser.AliasSelector
+//@   requires selOK(recv) && stmt != nil
+//@   ensures width: err == nil ==> len(filtered) == selw(recv, len(columns))
 //@   modifies nothing
+
+//@ iface parser.Selector.Values [C10]
+//@   implementers *parser.IDSelector, *parser.StarSelector, *parser.CountFuncSelector, *parser.NowFuncSelector, *parser.AliasSelector
+//@   requires selOK(recv)
+//@   ensures width: err == nil ==> len(filtered) == selw(recv, len(columns))
+//@   modifies nothing
+
+//@ loop parser.StarSelector.Values #1
+//@   invariant err == nil && len(filtered) == rangeindex + 1 && (filtered == nil || fresh(filtered))
+
+//@ loop parser.AliasSelector.Columns #1
+//@   invariant len(filtered) == rangeindex + 1 && (filtered == nil || fresh(filtered))
+
+//@ loop parser.FilterColumns #1
+//@   invariant err == nil && (filtered == nil || fresh(filtered))
+//@   invariant len(filtered) == wsum(elemtags(stmt.Selectors), sliceoff(stmt.Selectors), len(columns), rangeindex + 1)
 
 //@ func parser.FilterColumns [C10]
-//@   requires stmt != nil
+//@   requires stmtOK(stmt)
+//@   ensures width: err == nil ==> len(filtered) == wsum(elemtags(stmt.Selectors), sliceoff(stmt.Selectors), len(columns), len(stmt.Selectors))
+//@   ensures err != nil ==> len(filtered) == 0
+//@   ensures filtered == nil || fresh(filtered)
 //@   modifies nothing
 
+//@ loop parser.FilterValues #1
+//@   invariant err == nil && (filtered == nil || fresh(filtered))
+//@   invariant len(filtered) == wsum(elemtags(stmt.Selectors), sliceoff(stmt.Selectors), len(columns), rangeindex + 1)
+
 //@ func parser.FilterValues [C10]
-//@   requires stmt != nil
+//@   requires stmtOK(stmt)
+//@   ensures width: err == nil ==> len(filtered) == wsum(elemtags(stmt.Selectors), sliceoff(stmt.Selectors), len(columns), len(stmt.Selectors))
+//@   ensures err != nil ==> len(filtered) == 0
+//@   ensures filtered == nil || fresh(filtered)
 //@   modifies nothing
 
 // ---------------------------------------------------------------------------------------------
